@@ -387,6 +387,47 @@ func runC18(r *Run, replay *Case) {
 		}
 	}
 	r.Res.Exhaustive = true
+	// wide directories: 8-24 names per directory, each absent / file / directory per layer, at the top level and inside `d` — listings long
+	// enough that how the merged listing is sorted and de-duplicated matters (which layer's entry stands for a shadowed name)
+	nw := 400
+	if r.Thorough() {
+		nw = 8000
+	}
+	for i := 0; i < nw; i++ {
+		width := 8 + r.Rng.Intn(17)
+		k := 2 + r.Rng.Intn(3)
+		var ls []c18Layer
+		for j := 0; j < k; j++ {
+			if r.Rng.Intn(12) == 0 {
+				ls = append(ls, nil)
+				continue
+			}
+			l := c18Layer{}
+			var kids []string
+			for w := 0; w < width; w++ {
+				switch r.Rng.Intn(4) {
+				case 0:
+					l[fmt.Sprintf("n%02d", w)] = "file"
+				case 1:
+					l[fmt.Sprintf("n%02d", w)] = "dir"
+				}
+				switch r.Rng.Intn(4) {
+				case 0:
+					kids = append(kids, fmt.Sprintf("c%02d=f", w))
+				case 1:
+					kids = append(kids, fmt.Sprintf("c%02d=d", w))
+				}
+			}
+			if len(kids) > 0 && r.Rng.Intn(5) > 0 {
+				l["d"] = "dir:" + strings.Join(kids, ",")
+			}
+			ls = append(ls, l)
+		}
+		wq := []c18Query{{"readdir", "."}, {"readdir", "d"}, {"glob", "*"}, {"glob", "d/*"}, {"open", "d"}, {"readdir", "."}, {"readdir", "d"}}
+		c := c18Eval(ls, wq[i%len(wq)])
+		c.Tags = append(c.Tags, "wide")
+		r.Add(c)
+	}
 	// random stacks of 3 and 4
 	n := 3000
 	if r.Thorough() {
